@@ -143,6 +143,11 @@ pub fn random_cfg(rng: &mut impl Rng, profile: &str) -> Cfg {
     while mult * rto > 250_000_000 {
         rto /= 2;
     }
+    // small-integer time domain: configured RTO a multiple of 3 so that response times of RTO/3
+    // (first-sample RTO = 3R = configured RTO), RTO/2, RTO ... occur and coincide exactly
+    if profile == "rtt" && rng.random_range(0..100) < 45 {
+        rto = *pick(rng, &[3_000u64, 6_000, 9_000, 300_000, 600_000]);
+    }
     let mech = match profile {
         "nomech" | "sched" | "rtt" => "none",
         "st" => "st",
@@ -193,6 +198,17 @@ fn random_timer_time(rng: &mut impl Rng, d: &Driver) -> TimeSpec {
 
 fn small_dt(rng: &mut impl Rng, d: &Driver) -> TimeSpec {
     let rto = if d.cfg.reliable { d.cfg.timeout_us } else { d.cfg.rto_us };
+    if !d.cfg.reliable && d.now_us < 1_000_000_000 && rng.random_range(0..100) < 6 {
+        // idle gaps around the ten-minute staleness threshold of the RTT estimate (and parts of it,
+        // so that two shorter gaps add up to more than ten minutes)
+        return TimeSpec::Dt(*pick(rng, &[599_999_999u64, 600_000_000, 600_000_001, 601_000_000, 300_000_000,
+                                          350_000_000, 250_000_000]));
+    }
+    if !d.cfg.reliable && d.cfg.rto_us % 3000 == 0 && rng.random_range(0..100) < 80 {
+        // exact fractions of the configured RTO
+        let third = d.cfg.rto_us / 3;
+        return TimeSpec::Dt(third * *pick(rng, &[0u64, 1, 1, 1, 1, 2, 2, 3, 4, 6]));
+    }
     match rng.random_range(0..10) {
         0..=1 => TimeSpec::Dt(0),
         2..=6 => TimeSpec::Dt(rng.random_range(1..=(rto / 4).max(1))),
